@@ -9,10 +9,15 @@ import (
 	"verif/engine/ev"
 )
 
+// customColour is a colour type the library cannot know.
+type customColour struct{ r, g, b uint32 }
+
+func (c customColour) RGBA() (uint32, uint32, uint32, uint32) { return c.r, c.g, c.b, 0xffff }
+
 // C01: decoding equals the published EOTF for every code, every entry point.
 func C01(tier string) {
 	r := ev.Begin("C01", tier, "exploration")
-	r.Rule("complete enumeration: all 256 8-bit and all 65,536 16-bit codes x 4 spaces x 2 passes (second pass after every space has built its lazy tables) x {From8Bit, From16Bit, ColorFromNRGBA, ColorFromRGBA, ColorFromEncodedColor on NRGBA/NRGBA64/RGBA64, LineariseColor} with the code placed in every channel position; distinct = (space, width, code) triples whose decoded value lies strictly inside (0,1)")
+	r.Rule("complete enumeration: all 256 8-bit and all 65,536 16-bit codes x 4 spaces x 2 passes (second pass after every space has built its lazy tables) x {From8Bit, From16Bit, ColorFromNRGBA, ColorFromRGBA, ColorFromEncodedColor and LineariseColor on NRGBA/NRGBA64/RGBA64/Gray/Gray16/CMYK/YCbCr/NYCbCrA/Alpha/Alpha16 and a user-defined colour type} with the code placed in every channel position; distinct = (space, width, code) triples whose decoded value lies strictly inside (0,1)")
 	r.Assume("reference EOTFs are the float64 formulas of IEC 61966-2-1, Adobe RGB (1998) and ISO 22028-2 (ROMM)")
 	r.Assume("the 16-bit tables are built lazily once per process; this run observes them after a single-goroutine first use (first-use races are C11)")
 	const tol = 3e-7
@@ -164,6 +169,42 @@ func C01(tier string) {
 					}
 				}
 			}
+			// every other colour type: the colour's own RGBA() defines its 16-bit codes
+			otherColour := func(entry string, col color.Color) {
+				r16, g16, b16, a16 := col.RGBA()
+				if a16 != 0xffff {
+					return
+				}
+				c7, a7 := sp.FromEncodedColor(col)
+				r.Eval(1)
+				chk(sp, "ColorFromEncodedColor("+entry+").R", int(r16), 65535, c7.R)
+				chk(sp, "ColorFromEncodedColor("+entry+").G", int(g16), 65535, c7.G)
+				chk(sp, "ColorFromEncodedColor("+entry+").B", int(b16), 65535, c7.B)
+				if a7 != 1 {
+					r.Violate(sp.Name+"/ColorFromEncodedColor("+entry+")/alpha", fmt.Sprintf("%s ColorFromEncodedColor(%s %v) opaque alpha=%g", sp.Name, entry, col, a7), nil, nil)
+				}
+				lin := sp.Linearise(col)
+				for ci, pair := range [3][2]float64{{float64(lin.R), float64(r16)}, {float64(lin.G), float64(g16)}, {float64(lin.B), float64(b16)}} {
+					want := 65535 * sp.Curve.EOTF(pair[1]/65535)
+					if d := math.Abs(pair[0] - want); !(d <= 0.5+65535*tol+1e-9) {
+						r.Violate(sp.Name+"/LineariseColor("+entry+")", fmt.Sprintf("%s LineariseColor(%s %v) channel %d = %v, 65535*EOTF = %.4f", sp.Name, entry, col, ci, pair[0], want), nil, nil)
+					}
+				}
+			}
+			for v := 0; v < 256; v++ {
+				otherColour("Gray", color.Gray{Y: uint8(v)})
+				otherColour("CMYK", color.CMYK{C: uint8(v), M: uint8(255 - v), Y: uint8(v / 2), K: uint8(v / 3)})
+				otherColour("Alpha", color.Alpha{A: 255})
+				for _, cb := range []uint8{0, 100, 128, 255} {
+					otherColour("YCbCr", color.YCbCr{Y: uint8(v), Cb: cb, Cr: uint8(255 - int(cb))})
+					otherColour("NYCbCrA", color.NYCbCrA{YCbCr: color.YCbCr{Y: uint8(v), Cb: cb, Cr: 77}, A: 255})
+				}
+			}
+			for v := 0; v < 65536; v++ {
+				otherColour("Gray16", color.Gray16{Y: uint16(v)})
+				otherColour("custom", customColour{uint32(v), uint32(65535 - v), uint32(v/2 + 7)})
+			}
+			otherColour("Alpha16", color.Alpha16{A: 65535})
 			if pass == 0 {
 				continue
 			}
